@@ -343,5 +343,153 @@ def classify(what, mode, case, got):
     return None
 
 
+def gen_e2e(rng, T):
+    seed = rng.getrandbits(32)
+    comp = rng.choice([-1, -1, 1, 3, 10])
+    dpack = rng.choice([1, 1, 150, 400, 2000, 50000])
+    tpack = rng.choice([1, 200, 1000, 50000])
+    chunk = rng.choice([16, 64, 256, 1024])
+    nfiles = rng.choice([1, 3, 6, 10])
+    maxsize = rng.choice([100, 700, 3000]) if chunk >= 64 else rng.choice([100, 400])
+    steps = ["B"]
+    for _ in range(rng.choice([1, 2, 3])):
+        steps.append(rng.choice(["B", "B", "F", "Pf", "Pr", "D"]))
+    if rng.random() < 0.7: steps += ["F", rng.choice(["Pf", "Pr"])]
+    if rng.random() < 0.5: steps.append("C")
+    steps.append("R%d" % rng.choice([0, 0, 1, 2, 3, 5]))
+    if rng.random() < 0.5: steps += ["B", "R0"]
+    steps.append("T")
+    return "%d %d %d %d %d %d %d %s" % (seed, comp, dpack, tpack, chunk, nfiles, maxsize, " ".join(steps))
+
+
 def run_e2e(ctx, impl, model, bump, viol, mism, nontriv, samples):
-    return {}
+    rng = ctx.rng
+    T = ctx.thorough()
+    cases = []
+    corpus = os.path.join(ctx.pdir, "corpus.txt")
+    if os.path.exists(corpus):
+        for ln in open(corpus):
+            ln = ln.split("#")[0].strip()
+            if ln.startswith("e2e "): cases.append(ln[4:])
+    n = 60 if T else 10
+    while len(cases) < n: cases.append(gen_e2e(rng, T))
+    path = os.path.join(vlib.BUILD, "C08", "e2e_%d.txt" % os.getpid())
+    open(path, "w").write("\n".join(cases) + "\n")
+    rc, out, err = vlib.sh2([impl, path, "e2e"], timeout=3000)
+    os.remove(path)
+    if rc != 0:
+        raise RuntimeError("e2e harness failed rc=%s\n%s" % (rc, err[-2000:]))
+    blocks, cur = [], []
+    for ln in out.splitlines():
+        if ln.startswith("end "):
+            blocks.append((cur, ln[4:])); cur = []
+        else:
+            cur.append(ln)
+    if len(blocks) != len(cases):
+        raise RuntimeError("e2e harness returned %d blocks for %d cases" % (len(blocks), len(cases)))
+    ev = 0
+    npacks_total, nrepair, ndumps, tiny = 0, 0, 0, {}
+    cache = {}            # (pack id, hint, size) -> model answer
+    todo = []             # model lines to run
+    checks = []           # deferred comparisons
+    for case, (lines, status) in zip(cases, blocks):
+        if status != "ok":
+            viol.append(("end-to-end scenario failed in the library: " + status[:300], "e2e", case, status)); continue
+        dumps, order = {}, []
+        for ln in lines:
+            t = ln.split(" ", 2)
+            kind, tag = t[0], t[1]
+            if kind == "tiny":
+                tiny[t[2][:40]] = tiny.get(t[2][:40], 0) + 1; continue
+            if kind in ("enddump", "indexfile"): continue
+            d = dumps.setdefault(tag, {"packs": {}, "implff": [], "index": [], "snaps": {}, "check": None, "note": None})
+            if tag not in order: order.append(tag)
+            rest = t[2] if len(t) > 2 else ""
+            if kind == "pack":
+                head, _, pair = rest.partition(" | ")
+                pid, size, fhex = head.split(" ")
+                ct, pt = pair.split(" ")
+                d["packs"][pid] = (int(size), fhex, ct, pt)
+            elif kind == "implff":
+                pid, hint, res = rest.split(" ", 2)
+                d["implff"].append((pid, int(hint), res))
+            elif kind == "index":
+                ixid, dele, pid, size, blobs = rest.split(" ", 4)
+                d["index"].append((ixid, int(dele), pid, size, blobs))
+            elif kind == "snap":
+                sid, nf, dg = rest.split(" ")
+                d["snaps"][sid] = (nf, dg)
+            elif kind == "check": d["check"] = rest
+            elif kind == "note": d["note"] = rest
+        digests = {}
+        for tag in order:
+            d = dumps[tag]
+            if tag.endswith("pre"): continue
+            iscopy = tag[-1] == "C"
+            ndumps += 1
+            if len(d["packs"]) >= 2: nontriv.add(case + "#" + tag)
+            npacks_total += len(d["packs"])
+            bump("e2e_step_" + tag.lstrip("0123456789")[:2])
+            if d["check"] != "ok":
+                viol.append(("check(read_data) is not clean after step %s: %s" % (tag, d["check"]), "e2e", case, tag))
+            byix = {}
+            for (ixid, dele, pid, size, blobs) in d["index"]: byix.setdefault(pid, []).append((ixid, dele, size, blobs))
+            for pid, ents in byix.items():
+                if pid not in d["packs"] and any(e[1] == 0 for e in ents):
+                    viol.append(("index lists pack %s that is not in the backend (step %s)" % (pid[:12], tag), "e2e", case, tag))
+            for pid, (size, fhex, ct, pt) in d["packs"].items():
+                raw = bytes.fromhex(fhex) if fhex != "-" else b""
+                ev += 1
+                if hashlib.sha256(raw).hexdigest() != pid:
+                    viol.append(("pack name is not the SHA-256 of its bytes (step %s)" % tag, "e2e", case, pid))
+                if len(raw) != size:
+                    viol.append(("listed size of a pack differs from its length (step %s)" % tag, "e2e", case, pid))
+                if pt == "fail" or (0 if ct == "-" else len(ct) // 2) != (0 if pt in ("-", "fail") else len(pt) // 2) + 32:
+                    viol.append(("pack trailer does not decrypt / ciphertext is not plaintext + 32 (step %s)" % tag, "e2e", case, pid))
+                ents = byix.get(pid, [])
+                if len(ents) != 1:
+                    viol.append(("pack %s is listed by %d index entries (step %s)" % (pid[:12], len(ents), tag), "e2e", case, tag))
+                for (ixid, dele, isz, blobs) in ents:
+                    if isz != "-" and int(isz) != size:
+                        viol.append(("index size of pack differs from the file size (step %s)" % tag, "e2e", case, pid))
+                    checks.append(("index", (pid, -1, size), blobs, case, tag))
+                for (p2, hint, res) in d["implff"]:
+                    if p2 == pid: checks.append(("impl", (pid, hint, size), res, case, tag))
+                for hint in set([-1] + [h for (p2, h, _) in d["implff"] if p2 == pid]):
+                    k = (pid, hint, size)
+                    if k not in cache:
+                        cache[k] = None
+                        todo.append((k, "%d %d %s %s %s" % (hint, size, fhex, ct, pt)))
+            for sid, v in d["snaps"].items():
+                key = ("c" if iscopy else "") + sid
+                if key in digests and digests[key] != v:
+                    viol.append(("snapshot %s restores differently after step %s" % (sid[:12], tag), "e2e", case, tag))
+                digests.setdefault(key, v)
+            if tag.lstrip("0123456789").startswith("R"):
+                nrepair += 1
+                pre = dumps.get(tag + "pre", {"snaps": {}})["snaps"]
+                if pre != d["snaps"]:
+                    viol.append(("snapshots restore differently after deleting index files and repair_index (step %s: %s)" % (tag, d["note"]), "e2e", case, tag))
+    res = run_lines(model, [l for _, l in todo], "fromfile", tag="e2e") if todo else []
+    for (k, _), y in zip(todo, res): cache[k] = y
+    ev += len(todo)
+    bad_d = 0
+    for kind, k, exp, case, tag in checks:
+        y = cache[k]
+        ans, _, dflag = y.partition(" d=")
+        if kind == "impl":
+            if ans != exp: mism.append(("e2e-fromfile", "%s hint=%d size=%d" % k, exp, y))
+        else:
+            if ans != exp:
+                viol.append(("the blobs the pack's own header lists differ from its index entry (step %s)" % tag, "e2e", case, "pack %s: header %s / index %s" % (k[0], ans[:1500], exp[:1500])))
+            elif dflag.strip() != "1":
+                bad_d += 1
+                viol.append(("pack header is not a contiguous, duplicate-free, single-type description of the file (step %s)" % tag, "e2e", case, "pack %s: %s" % (k[0], ans[:1500])))
+    if len(samples) < 6 and todo:
+        k, l = todo[0]
+        samples.append({"mode": "e2e-fromfile", "case": l if len(l) < 1500 else l[:1500] + "...", "model": cache[k][:600]})
+    return {"evaluations": ev, "e2e_cases": len(cases), "e2e_dumps": ndumps, "e2e_packs_parsed_by_extracted_from_file": len([1 for (k, _) in todo if k[1] == -1]),
+            "e2e_pack_observations": npacks_total, "e2e_repair_index_runs": nrepair, "e2e_index_vs_header_comparisons": len([c for c in checks if c[0] == "index"]),
+            "e2e_impl_vs_model_from_file": len([c for c in checks if c[0] == "impl"]),
+            "e2e_tiny_pack_repair_index": tiny,
+            "e2e_rule": "scenario = config (compression off/1/3/10, data pack target 1 B (one blob per pack) .. 50 kB, tree pack target 1 B .. 50 kB, fixed chunk 16..1024 B) x 1..10 files (empty, 1 byte, duplicates, compressible, random) x steps drawn from backup / forget / prune with repack_all and fast or re-encoding repack / copy into a second repository with another key and compression / delete all or a subset of index files + repair_index; after every step all packs of the backend are dumped, parsed by the extracted from_file, compared with the index files, SHA-256, listing size, check(read_data) and per-snapshot content digests"}
